@@ -68,7 +68,7 @@ def contracts():
             2: "    invariant identifier@ == identifier_0@, forall|j: int| 0 <= j < self.identifiers@.len() ==> self.identifiers@[j].value@ != crate::certificate::exact_name(identifier_0@, wildcard),"
                "\n        forall|j: int| 0 <= j < it2.index@ ==> !legacy_match(self.identifiers@[j], identifier_0@),"},
         body_start="let ghost identifier_0 = identifier;", attrs="#[verifier::loop_isolation(false)]",
-        at=[("before", "self.identifiers.iter()", 1, "it1:"), ("before", "self.identifiers.iter()", 2, "it2:"),
+        at=[("loop_iter", None, 1, "it1:"), ("loop_iter", None, 2, "it2:"),
             ("before_stmt", "return Ok(d.clone())", 1, """proof {
                 let e = crate::certificate::exact_name(identifier_0@, wildcard);
                 assert(first_exact(self.identifiers@, e, it1.index@));
